@@ -372,6 +372,30 @@ Theorem C10_interpolation_request_sequence {T} (Ops : NumOps T) (xs : list T) (c
   ((exists c, In c cs /\ guard_icall Ops xs c = Exit) /\ guard_icalls Ops xs cs = Exit).
 Proof. exact (icalls_spec Ops xs cs). Qed.
 Print Assumptions C10_interpolation_request_sequence.
+(** "never ... reads memory out of bounds", for an object with or without unit argument and whatever it was asked before:
+    the interval indices that the Locate requests of a sequence return exist exactly when the sequence returns, and each of
+    them lies in 0 .. N-2 (the table has N-1 intervals and N-1 Steffen coefficients a[j], b[j], c[j], d[j]) - also for an
+    argument inside the 1 % tolerance band beyond either end of a long table *)
+Theorem C10_interpolation_session_indices {T} (Ops : NumOps T) (xs : list T) (x_dim : T) (cs : list (icall (T := T))) : 2 <= zlen xs < 4294967296 ->
+  (guard_icalls Ops (scale_units Ops x_dim xs) cs = Ok tt /\
+   exists l, session_locs Ops xs x_dim cs = Ok l /\ Forall (fun j => 0 <= j <= zlen xs - 2) l) \/
+  (guard_icalls Ops (scale_units Ops x_dim xs) cs = Exit /\ session_locs Ops xs x_dim cs = Exit).
+Proof. exact (session_locs_spec Ops xs x_dim cs). Qed.
+Print Assumptions C10_interpolation_session_indices.
+(** Save_Function(filename, points) evaluates the object at the points of Linear_Space(domain[0], domain[1], points).  For every
+    number type, table and number of points it either returns or exits through Locate's domain test and reads nothing out of bounds;
+    in exact arithmetic all sampling points lie in the domain, so "every request that is meaningful returns normally" holds for it
+    for every strictly increasing table and every number of points.  (In doubles the last point min + (points-1) * step can exceed
+    domain[1] by an ulp, which is more than 1 % of a last interval shorter than 100 ulp: known finding K-C10-2, found by the
+    correspondence run.) *)
+Theorem C10_save_function_is_safe {T} (Ops : NumOps T) (xs : list T) (points : Z) : 2 <= zlen xs < 4294967296 ->
+  guard_save_function Ops xs points = Ok tt \/ guard_save_function Ops xs points = Exit.
+Proof. exact (save_function_safe Ops xs points). Qed.
+Print Assumptions C10_save_function_is_safe.
+Theorem C10_save_function_returns (xs : list R) (points : Z) : 2 <= zlen xs < 4294967296 -> increasingR xs ->
+  guard_save_function ROps xs points = Ok tt.
+Proof. exact (save_function_returns_R xs points). Qed.
+Print Assumptions C10_save_function_returns.
 
 (** *** non-vacuity: concrete requests on both sides of guards *)
 Example C10_examples :
